@@ -64,6 +64,7 @@ class Contract(object):
         self.at_calls = d.get("at_calls", False)
         self.raises = d.get("raises", ())
         self.regions = d.get("regions", {})       # finding id -> spec function (masked region)
+        self.snapshot_spec = d.get("snapshot_spec")   # like setup_spec, but run AFTER requires is assumed
         self.setup_spec = d.get("setup_spec")     # spec function run after inputs are built (ghost snapshots)
         self.setup = d.get("setup")               # python-level hook(ctx, ns) run before the call
         self.receiver = d.get("receiver")
@@ -77,6 +78,7 @@ class Contract(object):
         self.accepts = d.get("accepts")           # python-level predicate(ctx, ns): typed case selector at call sites
         self.pre_hints = d.get("pre_hints")       # {callee name: spec fn} proof hints run before proving pre@callee
         self.open_dicts = d.get("open_dicts", ())  # objects whose named (non-field) dict entries are havoc'd at calls
+        self.check_effect = d.get("check_effect", False)  # prove (not assume) ensures about the effect hook
         self.effect = d.get("effect")             # python-level hook(ctx, ns) -> result, replaces `returns`
         self.proof = d.get("proof", "symbolic")   # 'symbolic' | 'table' (discharged by a @table obligation)
         self.pure = d.get("pure")                 # 'str'|'bytes'|'int': result is a function of the arguments
